@@ -1,7 +1,9 @@
 package mon
 
 import (
+	"encoding/json"
 	"fmt"
+	"math/big"
 	"strings"
 	"sync"
 	"sync/atomic"
@@ -118,6 +120,124 @@ func c06ParseCases() []c06ParseCase {
 	}
 	for _, s := range [][]string{c09Surface[:8], c09Surface[8:16], c09Surface[16:24], c09Surface[40:48]} {
 		out = append(out, c06ParseCase{Srcs: s})
+	}
+	return out
+}
+
+// c06.marshal: Marshal, Preview and the text-producing builtins from several goroutines at once, every goroutine on its
+// own value (nothing is shared by the callers): each text must be the one the same call gives alone.
+
+type c06MarshalCase struct {
+	Vals []run.TV // one per goroutine
+}
+
+func c06MarshalOne(v any, code *gojq.Code) string {
+	bs, err := gojq.Marshal(v)
+	out := string(bs)
+	if err != nil {
+		out = "error: " + err.Error()
+	}
+	out += "\x00" + gojq.Preview(v)
+	tr := run.RunCode(code, v, nil, 100000, 20)
+	return out + "\x00" + run.TraceDesc(tr)
+}
+
+var kC06Marshal = run.NewKind("c06.marshal", func(c *run.Ctx, t c06MarshalCase) *run.Fail {
+	const src = `[tojson, tostring, @json, @text, "\(.)", ([., .] | tojson), ([.] | @csv?), ([.] | @sh?), (tojson | fromjson | tojson)] | join("|")`
+	codes := make([]*gojq.Code, len(t.Vals))
+	want := make([]string, len(t.Vals))
+	for i, v := range t.Vals {
+		res := run.Compile(src)
+		if res.Code == nil {
+			return run.Failf("does not compile: %v", res.Err)
+		}
+		codes[i] = res.Code // a Code of its own: nothing shared
+		want[i] = c06MarshalOne(v.V, codes[i])
+	}
+	before := raceLogSize()
+	const R = 60
+	var wg sync.WaitGroup
+	var mism atomic.Int64
+	var first atomic.Value
+	start := make(chan struct{})
+	for g := range t.Vals {
+		wg.Add(1)
+		go func(g int) {
+			defer wg.Done()
+			defer func() {
+				if r := recover(); r != nil {
+					mism.Add(1)
+					first.CompareAndSwap(nil, fmt.Sprintf("goroutine %d: panic %v", g, r))
+				}
+			}()
+			<-start
+			for i := 0; i < R; i++ {
+				if got := c06MarshalOne(t.Vals[g].V, codes[g]); got != want[g] {
+					mism.Add(1)
+					first.CompareAndSwap(nil, fmt.Sprintf("goroutine %d, round %d: %s; alone: %s", g, i, run.Clip(got), run.Clip(want[g])))
+				}
+			}
+		}(g)
+	}
+	close(start)
+	wg.Wait()
+	c.Count("concurrent_serialisations", int64(len(t.Vals)*R))
+	if n := mism.Load(); n > 0 {
+		return run.Failf("%d of %d concurrent Marshal / Preview / tojson rounds on goroutine-private values differ from the same calls alone; first: %v", n, len(t.Vals)*R, first.Load())
+	}
+	if after := raceLogSize(); after > before {
+		rep := raceLogFrom(before)
+		if strings.Contains(rep, "WARNING: DATA RACE") && (strings.Contains(rep, "github.com/itchyny/gojq") || strings.Contains(rep, "/repo/")) {
+			return &run.Fail{Detail: fmt.Sprintf("the race detector reported a data race while %d goroutines serialised their own values:\n%s", len(t.Vals), run.Clip(raceSummary(rep)))}
+		}
+	}
+	c.Nontrivial(run.Canon(t.Vals[0].V) + fmt.Sprint(len(t.Vals)))
+	return nil
+})
+
+func c06MarshalCases() []c06MarshalCase {
+	var out []c06MarshalCase
+	mk := func(f func(g int) any) {
+		t := c06MarshalCase{}
+		for g := 0; g < 8; g++ {
+			t.Vals = append(t.Vals, run.TV{V: f(g)})
+		}
+		out = append(out, t)
+	}
+	ctl := []string{"\x01", "\x1f", "\x10", "\x7f", "\x00", "\x0b", "\x1b", "\x02"}
+	for _, n := range []int{1, 16, 64, 500} {
+		mk(func(g int) any { return strings.Repeat(ctl[g], n) })
+		mk(func(g int) any { return strings.Repeat(ctl[g]+"é", n) })
+		mk(func(g int) any { return map[string]any{strings.Repeat(ctl[g], n): strings.Repeat("\"\\", n)} })
+		mk(func(g int) any { return strings.Repeat(string(rune(0x80+g)), n) + "\xff" })
+		mk(func(g int) any {
+			a := make([]any, n)
+			for i := range a {
+				a[i] = (g+1)*1000003 + i
+			}
+			return a
+		})
+		mk(func(g int) any {
+			a := make([]any, n)
+			for i := range a {
+				a[i] = float64(g+1)/8 - 0.5 + float64(i)*1e-7
+			}
+			return a
+		})
+		mk(func(g int) any {
+			a := make([]any, n)
+			for i := range a {
+				a[i] = new(big.Int).Lsh(big.NewInt(int64(g+3)), uint(64+i%70))
+			}
+			return a
+		})
+		mk(func(g int) any {
+			m := map[string]any{}
+			for i := 0; i < n; i++ {
+				m[fmt.Sprintf("k%d-%d", g, i)] = []any{nil, true, json.Number(fmt.Sprintf("%d.%d0", g, i)), ctl[g]}
+			}
+			return m
+		})
 	}
 	return out
 }
